@@ -43,6 +43,17 @@ def oneline(value: object) -> str:
     )
 
 
+def quoted(value: object) -> str:
+    """Render a value which a peer may have chosen between double quotes it cannot close.
+
+    oneline() keeps the value on its line; between quotes it also has to stay inside them.
+    A quote copied as it is ends the value early, and what follows reads as fields of the
+    event: an advisory of `x" header 00 body 00` forged the header and body of its own event.
+    Backslash and double quote are escaped with a backslash, then the control characters.
+    """
+    return '"' + oneline(str(value).replace('\\', '\\\\').replace('"', '\\"')) + '"'
+
+
 class Text:
     def __init__(self, version: str) -> None:
         self.version = version
@@ -177,7 +188,7 @@ class Text:
         # free text the peer chose, and not promised to be UTF-8
         raw = operational.data
         data = bytes(raw).decode('utf-8', 'replace') if isinstance(raw, (bytes, bytearray, memoryview)) else raw
-        return f'neighbor {neighbor.session.peer_address} {direction} operational {operational.name} afi {operational.afi} safi {operational.safi} advisory "{oneline(data)}"{self._header_body(header, body)}'
+        return f'neighbor {neighbor.session.peer_address} {direction} operational {operational.name} afi {operational.afi} safi {operational.safi} advisory {quoted(data)}{self._header_body(header, body)}'
 
     def _operational_query(
         self, neighbor: 'Neighbor', direction: str, operational: 'OperationalFamily', header: bytes, body: bytes
